@@ -242,3 +242,46 @@ def clone_shares(P, E, scope=None, floor=1):
     if n < floor:
         r.error("CLONE-SHARES: only %d Clone impls in scope (floor %d)" % (n, floor))
     return r
+
+
+# --------------------------------------------------------------------------- OBS-fresh
+
+def obs_fresh(P, E, H, scope=None):
+    """An Observer is single-use: once it has seen a terminal or was unsubscribed its slots are empty
+    for good (and clones share the slots).  So the observer handed to `inner_subscribe` must be made
+    by the activation that subscribes it (new_observer / Observer::new there) or be the subscriber
+    that activation was given - never one kept in a struct field or allocated by an enclosing
+    constructor, which a second connect()/subscribe() would reuse dead."""
+    r = RuleResult("OBS-fresh", "the observer passed to inner_subscribe is created by the subscribing activation (or is the subscriber "
+                                "handed to it), never a stored one")
+    n = 0
+    for c in E.sites["subscribe"]:
+        if not c.path.endswith("::inner_subscribe") or len(c.args) < 2:
+            continue
+        b = c.body
+        tr = H.type_root(b)
+        if scope is not None and not scope(tr):
+            continue
+        n += 1
+        bad = None
+        for t in b.operand_prov(c.args[1]):
+            for g in P.global_cell(b, t, through_helpers=True):
+                gb = P.bodies[g[0]]
+                if g[1] == "param":
+                    is_self = gb.kind == "assoc" and g[2] == 1 and gb.locals[1].get("name") == "self"
+                    if is_self and g[3]:
+                        bad = "the field `%s` of self" % ".".join(g[3])
+                elif g[1] == "ret":
+                    # allocated in an enclosing constructor body (not a closure): shared by every activation
+                    if gb.id != b.id and gb.kind != "closure" and gb.id not in P.absorbed and b.root == gb.id:
+                        call = gb.call_at(g[2])
+                        if call is not None and (atom(call) in ("observer_new", "new_observer") or norm(ty_adt(call.dest_t or {}) or "") == OBSERVER):
+                            bad = "an observer built once in %s" % gb.nid
+        r.instance((H.stable_name(b), "inner_subscribe"), True, None)
+        if bad:
+            r.violate((tr, "stored observer subscribed"),
+                      "%s subscribes %s: an Observer is dead after its first terminal / unsubscribe (clones share the slots), so "
+                      "every later subscription made with it delivers nothing" % (H.stable_name(b), bad), body=b, line=c.line)
+    if n < 10:
+        r.error("OBS-fresh: only %d inner_subscribe sites (floor 10)" % n)
+    return r
